@@ -6,5 +6,5 @@ Extraction "model.ml"
   N.add N.mul N.div_eucl N.eqb
   rm_new post_recv session_post_recv sys_init step owner_of find_sid
   post_recv_ok sessions_lifecycle_b deliver_ok sweep_orphan_ok sweep_accept_ok close_ok accept_ok rx_ok
-  unowned delivery_matches drop_ok is_pending is_owned is_dropped
+  unowned delivery_matches drop_ok peer_close_ok group_sessions_ok is_pending is_owned is_dropped
   sysx_init stepx.
